@@ -33,6 +33,9 @@ enum Op {
     /// remove_with_stable_id using the id of the k-th connection ever added for p
     RemoveId { p: usize, k: usize },
     Subscribe,
+    /// the REMOTE end of the latest connection of p closes it (the registry is not told: the
+    /// entry stays until the connection's handler unregisters it by stable id)
+    CloseRemote { p: usize },
 }
 
 fn op_str(o: &Op) -> String {
@@ -41,6 +44,7 @@ fn op_str(o: &Op) -> String {
         Op::Remove { p } => format!("remove(p{p})"),
         Op::RemoveId { p, k } => format!("remove_id(p{p},#{k})"),
         Op::Subscribe => "subscribe".into(),
+        Op::CloseRemote { p } => format!("remote_close(p{p})"),
     }
 }
 
@@ -62,6 +66,11 @@ fn enabled(hist: &[Op]) -> Vec<Op> {
         }
     }
     v.push(Op::Subscribe);
+    for p in 0..2 {
+        if hist.iter().any(|o| matches!(o, Op::Add { p: q, .. } if *q == p)) {
+            v.push(Op::CloseRemote { p });
+        }
+    }
     v
 }
 
@@ -101,6 +110,7 @@ async fn run_sequence(pool: &Pool, own: PeerId, ids: &[PeerId; 2], seq: &[Op]) -
     let mut conns: Vec<(usize, bool, VConnection)> = vec![]; // (peer, inbound, conn)
     let mut subs: Vec<Sub> = vec![];
     let mut shape = String::new();
+    let mut remote_closed: BTreeSet<usize> = BTreeSet::new();
     for (step, op) in seq.iter().enumerate() {
         let mut expected_events: Vec<PeerEvent> = vec![];
         match *op {
@@ -160,6 +170,18 @@ async fn run_sequence(pool: &Pool, own: PeerId, ids: &[PeerId; 2], seq: &[Op]) -
                 }
                 ap.remove_with_stable_id(ids[p], c.stable_id(), DisconnectReason::ConnectionClosed);
             }
+            Op::CloseRemote { p } => {
+                // connection index == index of its remote end in the pool's keep list
+                let idx = conns.iter().enumerate().filter(|(_, c)| c.0 == p).map(|(i, _)| i).last().unwrap();
+                let remote = pool.keep.lock().unwrap()[idx].clone();
+                remote.close();
+                tokio::time::sleep(ms(30)).await;
+                if conns[idx].2.close_reason().is_none() {
+                    return Err(("setup".into(), format!("step {step}: the remote close did not reach the local end")));
+                }
+                remote_closed.insert(idx);
+                shape.push('c');
+            }
             Op::Subscribe => {
                 let (rx, snap) = ap.subscribe();
                 let set: BTreeSet<PeerId> = snap.iter().copied().collect();
@@ -186,7 +208,7 @@ async fn run_sequence(pool: &Pool, own: PeerId, ids: &[PeerId; 2], seq: &[Op]) -
         for (i, (p, _, c)) in conns.iter().enumerate() {
             let registered = reg.get(p) == Some(&i);
             let closed = c.close_reason().is_some();
-            if registered && closed {
+            if registered && closed && !remote_closed.contains(&i) {
                 return Err(("listed-but-closed".into(), format!("step {step} {}: the registered connection of p{p} is closed (history {:?})", op_str(op), seq.iter().map(op_str).collect::<Vec<_>>())));
             }
             if !registered && !closed {
@@ -302,6 +324,7 @@ fn op_json(o: &Op) -> Value {
         Op::Remove { p } => json!({"op":"remove","p":p}),
         Op::RemoveId { p, k } => json!({"op":"remove_id","p":p,"k":k}),
         Op::Subscribe => json!({"op":"subscribe"}),
+        Op::CloseRemote { p } => json!({"op":"remote_close","p":p}),
     }
 }
 
@@ -310,6 +333,7 @@ fn parse_op(v: &Value) -> Op {
         "add" => Op::Add { p: v["p"].as_u64().unwrap() as usize, inbound: v["inbound"].as_bool().unwrap() },
         "remove" => Op::Remove { p: v["p"].as_u64().unwrap() as usize },
         "remove_id" => Op::RemoveId { p: v["p"].as_u64().unwrap() as usize, k: v["k"].as_u64().unwrap() as usize },
+        "remote_close" => Op::CloseRemote { p: v["p"].as_u64().unwrap() as usize },
         _ => Op::Subscribe,
     }
 }
@@ -463,7 +487,7 @@ impl Check for C04 {
         CheckMeta {
             property: "C04",
             level: "model_checking",
-            rule: "direct: every operation sequence over {add(fresh real connection of peer p in {0,1}, inbound|outbound), remove(p), remove_with_stable_id(p, id of any earlier connection, current or stale), subscribe} up to the depth, for own identity smallest / middle / greatest, executed on the real registry with real QUIC connections and compared after every step with a reference map + event list (states = sequences, transitions = operations executed); history: every history over 3 real networks of {dial, disconnect, short/long partition, restart, wait} up to the depth with a subscription before every step; distinct = distinct outcome shapes".into(),
+            rule: "direct: every operation sequence over {add(fresh real connection of peer p in {0,1}, inbound|outbound), remove(p), remove_with_stable_id(p, id of any earlier connection, current or stale), subscribe, the remote end closes p's latest connection} up to the depth, for own identity smallest / middle / greatest, executed on the real registry with real QUIC connections and compared after every step with a reference map + event list (states = sequences, transitions = operations executed); history: every history over 3 real networks of {dial, disconnect, short/long partition, restart, wait} up to the depth with a subscription before every step; distinct = distinct outcome shapes".into(),
             assumptions: vec![
                 "a supplementary FREE-RUNNING unit (multi-thread runtime, real sockets: a peer disconnects and reconnects while a request of its old connection is inside a blocking section of the handler; the serving side's events must alternate) samples what the single-thread simulation cannot host; counted under free_running_trials, not part of the exhaustive claim".into(),
                 "thread interleavings of the registry are explored separately (loom, run/lockx) — see DESIGN.md".into(),
